@@ -207,6 +207,11 @@ def _check_P(P, normalize, Qs, Ws, dirs, F, tag, scales=True):
     Ti = T_SO3_inv_quat(P, normalize=normalize)
     F.cmp("T_SO3_quat T_SO3_inv_quat = I" + sfx, T @ Ti, I3, TOL, d, "TTinv")
     n += 1
+    if normalize:
+        # the pairing used by the bodies' kinematic equation: the NORMALISING tangent map with the inverse evaluated with
+        # normalize=False (q_dot = T_SO3_inv_quat(p, normalize=False) omega) is the identity for quaternions of any length
+        F.cmp("T_SO3_quat(P) T_SO3_inv_quat(P, normalize=False) = I", T @ T_SO3_inv_quat(P, normalize=False), I3, TOL, d, "TTinv_mixed_flags")
+        n += 1
     # derivative of the rotation matrix: implemented map (complex step) and exact rational reference
     R_P = Exp_SO3_quat_P(P, normalize=normalize)
     F.cmp("Exp_SO3_quat_P vs exact rational derivative" + sfx.replace(", unit P", ""), R_P, ref_R_P(P, normalize), TOL, d, "RP_rational")
